@@ -312,6 +312,8 @@ def justify_raise(setup, exc):
             tr = extract(pm)
         except Exception as e:  # noqa: BLE001
             return "unjustified", "shorter run returned a malformed model: %r" % (e,), j
+        if any(len(tr[k_]) != j for k_ in SERIES):
+            return "unjustified", "the %d-step run returned series of lengths %r" % (j, {k_: len(tr[k_]) for k_ in SERIES if len(tr[k_]) != j}), j
         m, x, t = lookahead(setup, tr)
         if not (m > tolm * tr["m"][j - 1]) or not (tolm <= x <= 1 - tolm) or not (0 < t < math.inf):
             return "justified", "state %d leaves the admissible region (m=%r x=%r T=%r)" % (j, m, x, t), j
